@@ -2,7 +2,7 @@
 statement and whose body is the proof: recursive calls are uses of the induction hypothesis (checked to be on
 strictly smaller arguments by the `decreases` measure of the contract).  Nothing here is executed by the library."""
 from pyvc.api import sub
-from specs.tlv8 import chunks_at, chunks_from, merged_end, merged_tail, frag, cont, items_from, chain_ok
+from specs.tlv8 import chunks_at, chunks_from, merged_end, merged_tail, frag, cont, items_from, chain_ok, headers_ok
 
 
 def lemma_chunks_eq(t, e, p):
@@ -34,6 +34,20 @@ def lemma_read_chunks(b, pre, t, e, pos, rest):
     else:
         assert chunks_from(t, e, pos + 255) == b""
         assert not cont(b, off)
+
+
+def lemma_read_item(b, pre, t, e, rest):
+    """b = pre + all fragments of e + rest: tlv_iterator's specification yields, at len(pre), the ONE item (type t, value
+    e) and goes on behind the fragments; the headers of the item are complete"""
+    off = len(pre)
+    lemma_read_chunks(b, pre, t, e, 0, rest)
+    end = merged_end(b, off)
+    nxt = len(b) - len(rest)
+    assert end + 2 + b[end + 1] == nxt
+    assert sub(e, 0, len(e)) == e
+    assert frag(b, off) + merged_tail(b, off) == e
+    assert items_from(b, off) == [(end, b[off], b[end + 1], frag(b, off) + merged_tail(b, off))] + items_from(b, end + 2 + b[end + 1])
+    assert headers_ok(b, off) == (off + 1 < len(b) and chain_ok(b, off) and headers_ok(b, end + 2 + b[end + 1]))
 
 
 def lemma_chunks_len(t, e, pos):
